@@ -247,6 +247,37 @@ def random_ops(rng: random.Random, cells, budget: int = 4):
     return ops
 
 
+def sliver_cases(rng: random.Random, n: int):
+    """Strongly non-square refinable cells crossed by a neighbour's boundary close to their edge: the piece the cut
+    would leave is thicker than 1% of the cell's SHORT side but thinner than 1% of its LONG side (and the mirror
+    situation, where the cut is excepted) -- the layouts in which griddify's sliver rule matters."""
+    out = []
+    for _ in range(n):
+        L, S = rng.choice([400, 500, 600]), rng.choice([40, 50, 60])
+        d = rng.choice([1, 2, 3, 4, 5])            # 0.01*S < d < 0.01*L (d=... up to 5 with L >= 400: d <= 4 strictly below)
+        if d * 100 >= L:
+            d = 3
+        flat = rng.random() < 0.5
+        # A: the long cell; B, C: two cells on top (or to the right) meeting at distance d from A's edge
+        near_far = rng.random() < 0.5
+        c = d if near_far else L - d
+        cells = [[0, 0, L, S], [0, S, c, 2 * S], [c, S, L, 2 * S]]
+        if not flat:
+            cells = [[r[1], r[0], r[3], r[2]] for r in cells]
+        den = 2
+        full = []
+        for i, r in enumerate(cells):
+            rat = [rng.choice([0, 1, 2]), rng.choice([-1, 0, 1])]
+            if rat[0] <= 0 and rat[1] <= 0:
+                rat[0] = 1
+            full.append(r + [rng.randint(0, 1), 0, rat])
+        ops = [["griddify", 0, 1, 0]]
+        if rng.random() < 0.3:
+            ops.append(["griddify", 0, 1, 0])
+        out.append({"cells": full, "den": den, "nm": 2, "ops": ops, "embs": ALL, "predict": 1})
+    return out
+
+
 def gen_cases(ctx: Ctx, tier: str, salt: int):
     """TLC-generated behaviours (exhaustive for the cfg) + seeded random behaviours"""
     gen = tlc.generate(ctx, "AllocMC", f"Alloc_gen_{tier}")
@@ -269,4 +300,7 @@ def gen_cases(ctx: Ctx, tier: str, salt: int):
         a["loop_bound"] = 2
         cases.append(a)
     ctx.extra["behaviours_random"] = n
+    sl = sliver_cases(rng, 60 if tier == "quick" else 600)
+    cases += sl
+    ctx.extra["sliver_layouts"] = len(sl)
     return cases
